@@ -61,6 +61,15 @@ def main():
         if not os.path.exists('/tmp/vseed/lean/.lake'):
             sh('rsync -a %s/lean/.lake /tmp/vseed/lean/ ; rsync -a %s/lean/RTV/Gen /tmp/vseed/lean/RTV/' % (VERIF, VERIF))
         env = dict(os.environ)
+        # what MANIFEST.setup_cmd does, on the clean tree: regenerate every Gen file and build everything once
+        if not os.environ.get('SEEDTEST_SKIP_SETUP'):
+            sh('git -C %s stash -q' % wt)
+            env0 = dict(os.environ); env0['VERIF_REPO'] = wt
+            rc0, out0 = sh('/tmp/vseed/harness/setup.sh', env=env0, timeout=3000)
+            sh('git -C %s stash pop -q' % wt)
+            meta['setup_rc'] = rc0
+            if rc0 != 0:
+                meta['status'] = 'setup failed in the /verif copy: ' + out0[-500:]
         env['VERIF_REPO'] = wt
         for cid in [pid] + extra:
             t0 = time.time()
